@@ -255,6 +255,10 @@ pub fn run_world_check(c: WorldCheck, tier: Tier, seed: u64) -> i32 {
         // in half of the histories the failure-notification service (e-mail) never returns
         s.search("world-after-failed-attempts", "world", tier.pick(150, 3000), || (after_failed_attempts_strategy(), proptest::bool::ANY).prop_map(|(mut x, st)| { x.notif_stall = st; x }), &case);
     }
+    if c.prop == "C02" {
+        // replay onto an in-flight payment through the binary, with the notifications the plugin subscribed to
+        crate::e2e::c02_e2e_quick(&mut s);
+    }
     if c.prop == "C02" && tier == Tier::Thorough {
         // the hook handler and main() are only reachable through the binary: a pay command that takes long
         crate::e2e::c02_e2e(&mut s);
@@ -310,6 +314,11 @@ pub fn run_world_check(c: WorldCheck, tier: Tier, seed: u64) -> i32 {
         let p = c.profile.clone();
         s.assume("records written by the release this harness is pinned to (stored format of that commit) belong to the input domain: a node is upgraded with its datastore in place");
         s.search("world-paid-by-earlier-run", "world", tier.pick(100, 2000), move || scenario_strategy(p.clone()).prop_map(|mut x| { x.initial_succeeded = vec![0]; x }), &case);
+    }
+    if matches!(c.prop, "C02" | "C05" | "C08") {
+        // the node rejects several datastore writes in a row (3-4): retry loops run out
+        let p = Profile { write_fault_bursts: true, w_crash: 7, ..c.profile.clone() };
+        s.search("world-write-fault-bursts", "world", tier.pick(150, 3000), move || scenario_strategy(p.clone()), &case);
     }
     if matches!(c.prop, "C05" | "C08") {
         // the stored-state read alone fails (an RPC error is not "nothing stored"): crashes onto Pending records + failing listdatastore
